@@ -1,10 +1,218 @@
-"""Kani route (in place on the real crates). Filled in by hooks/ (see DESIGN §2.4)."""
-GROUPS = {}
+"""Kani route: harnesses in /verif/hooks/*.rs, compiled in place into the real crates under cfg(kani).
+
+A harness feeds kani::any() into a `contract_*` function (precondition -> Vacuous, else call the real
+function and check the postcondition) and asserts the outcome is not Violated.  Loop-free bodies and loops
+bounded by a fixed array size (unwinding assertions on) are complete proofs; harnesses flagged `bounded`
+are stand-ins and are never counted as proved.
+"""
+import json
+import os
+import re
+import subprocess
+import time
+
+VERIF = os.path.dirname(os.path.dirname(os.path.abspath(__file__)))
+REPO = os.environ.get('VERIF_REPO', '/repo')
+BUILD = os.environ.get('VERIF_BUILD', '/verif/.build')
+
+SER = 'util::ser::verif_contracts::harnesses::'
+MSGS = 'ln::msgs::verif_contracts::harnesses::'
+WIRE = 'ln::wire::verif_contracts::harnesses::'
+ONION = 'ln::onion_utils::verif_contracts::harnesses::'
+INB = 'ln::inbound_payment::verif_contracts::harnesses::'
+INV_SER = 'ser::verif_contracts::harnesses::'
+INV_DE = 'de::verif_contracts::harnesses::'
+INV_LIB = 'verif_contracts::harnesses::'
+
+
+def H(prefix, name, module, contract, types, clause, functions, bounded=None, thorough=False):
+    return {'id': prefix + name, 'short': name, 'module': module, 'contract': contract, 'types': types, 'clause': clause,
+            'functions': functions, 'bounded': bounded, 'thorough_only': thorough}
+
+
+RT = 'read(write(x)) == x, consuming exactly the written bytes, for every value'
+CANON = 'whatever a buffer decodes to re-encodes to exactly the consumed prefix (non-minimal encodings rejected); nothing beyond the buffer is read'
+
+SER_PRIMS = [
+    H(SER, 'h_rt_u8', 'ser', 'rt_u8', ['u8'], RT, ['<u8 as Writeable>::write', '<u8 as Readable>::read']),
+    H(SER, 'h_rt_u16', 'ser', 'rt_u16', ['u16'], RT, ['<u16 as Writeable>::write', '<u16 as Readable>::read']),
+    H(SER, 'h_rt_u32', 'ser', 'rt_u32', ['u32'], RT, ['<u32 as Writeable>::write', '<u32 as Readable>::read']),
+    H(SER, 'h_rt_u64', 'ser', 'rt_u64', ['u64'], RT, ['<u64 as Writeable>::write', '<u64 as Readable>::read']),
+    H(SER, 'h_rt_i64', 'ser', 'rt_i64', ['i64'], RT, ['<i64 as Writeable>::write', '<i64 as Readable>::read']),
+    H(SER, 'h_rt_bool', 'ser', 'rt_bool', ['bool'], RT, ['<bool as Writeable>::write', '<bool as Readable>::read']),
+    H(SER, 'h_rt_bigsize', 'ser', 'rt_bigsize', ['u64'], RT, ['<BigSize as Writeable>::write', '<BigSize as Readable>::read']),
+    H(SER, 'h_rt_collection_length', 'ser', 'rt_collection_length', ['u64'], RT, ['<CollectionLength as Writeable>::write', '<CollectionLength as Readable>::read']),
+    H(SER, 'h_rt_hzbd_u64', 'ser', 'rt_hzbd_u64', ['u64'], RT, ['<HighZeroBytesDroppedBigSize<u64> as Writeable>::write', '<HighZeroBytesDroppedBigSize<u64> as Readable>::read']),
+    H(SER, 'h_rt_hzbd_u32', 'ser', 'rt_hzbd_u32', ['u32'], RT, ['<HighZeroBytesDroppedBigSize<u32> as Writeable>::write', '<HighZeroBytesDroppedBigSize<u32> as Readable>::read']),
+    H(SER, 'h_rt_u48', 'ser', 'rt_u48', ['u64'], RT + ' (x < 2^48)', ['<U48 as Writeable>::write', '<U48 as Readable>::read']),
+]
+SER_CANON = [
+    H(SER, 'h_canon_bigsize', 'ser', 'canon_bigsize', ['[u8;9]'], CANON, ['<BigSize as Readable>::read']),
+    H(SER, 'h_canon_collection_length', 'ser', 'canon_collection_length', ['[u8;10]'], CANON, ['<CollectionLength as Readable>::read']),
+    H(SER, 'h_canon_bool', 'ser', 'canon_bool', ['[u8;1]'], 'bool rejects every byte above 1', ['<bool as Readable>::read']),
+    H(SER, 'h_canon_hzbd_u64', 'ser', 'canon_hzbd_u64', ['[u8;8]', 'u8'], 'accepted iff no leading zero byte, and re-encodes to itself', ['<HighZeroBytesDroppedBigSize<u64> as Readable>::read']),
+    H(SER, 'h_fixed_length_reader', 'ser', 'fixed_length_reader', ['u8', 'u8', 'u8'],
+      'FixedLengthReader never hands out more than total_bytes and the inner reader advances by exactly what was handed out', ['FixedLengthReader::read', 'FixedLengthReader::bytes_remain']),
+]
+MSG_RT = [
+    H(MSGS, 'h_rt_update_fee', 'msgs', 'rt_update_fee', ['[u8;32]', 'u32'], 'UpdateFee survives encode -> decode unchanged (real impl_writeable_msg! codec)', ['UpdateFee::write', 'UpdateFee::read_from_fixed_length_buffer']),
+    H(MSGS, 'h_rt_update_fail_malformed', 'msgs', 'rt_update_fail_malformed', ['[u8;32]', 'u64', '[u8;32]', 'u16'], 'UpdateFailMalformedHTLC survives encode -> decode unchanged', ['UpdateFailMalformedHTLC::write', 'UpdateFailMalformedHTLC::read_from_fixed_length_buffer']),
+    H(MSGS, 'h_rt_stfu', 'msgs', 'rt_stfu', ['[u8;32]', 'bool'], 'Stfu survives encode -> decode unchanged', ['Stfu::write', 'Stfu::read_from_fixed_length_buffer']),
+    H(MSGS, 'h_canon_update_fee', 'msgs', 'canon_update_fee', ['[u8;36]'], 'every 36-byte buffer decodes as UpdateFee and re-encodes to itself (decoding total on the fixed part, canonical)', ['UpdateFee::read_from_fixed_length_buffer']),
+    H(WIRE, 'h_is_even_unknown', 'wire', 'is_even_unknown', ['u16'], 'a message type must be understood ("even") exactly when its low bit is clear', ['wire::Message::is_even', 'wire::Message::type_id']),
+    H(MSGS, 'hb_rt_ping', 'msgs', 'rt_ping', ['u16', 'u16'], 'Ping survives encode -> decode', ['Ping::write', 'Ping::read_from_fixed_length_buffer'], bounded='payload length <= 3 bytes', thorough=True),
+]
+
+GROUPS = {
+    'C12': [{'name': 'ser-primitives', 'crate': 'lightning', 'harnesses': SER_PRIMS, 'timeout': 400}],
+    'C13': [{'name': 'ser-canonical+wire', 'crate': 'lightning', 'harnesses': SER_CANON + MSG_RT, 'timeout': 400}],
+}
+
+SIZES = {'u8': 1, 'u16': 2, 'u32': 4, 'u64': 8, 'i64': 8, 'bool': 1, 'u128': 16, 'usize': 8}
 
 
 def groups_for(prop, tier):
-    return [g for g in GROUPS.get(prop, []) if tier == 'thorough' or not g.get('thorough_only')]
+    res = []
+    for g in GROUPS.get(prop, []):
+        hs = [h for h in g['harnesses'] if tier == 'thorough' or not h.get('thorough_only')]
+        if hs:
+            g2 = dict(g)
+            g2['harnesses'] = hs
+            res.append(g2)
+    return res
+
+
+def _kani_cmd(crate, filters, timeout, jobs=16, playback=False):
+    cmd = ['cargo', 'kani', '--target-dir', os.path.join(BUILD, 'kani-' + crate), '-Z', 'unstable-options', '--harness-timeout', str(timeout)]
+    for f in filters:
+        cmd += ['--harness', f]
+    if playback:
+        cmd += ['-Z', 'concrete-playback', '--concrete-playback=print']
+    else:
+        cmd += ['-j', str(jobs), '--output-format', 'terse']
+    return cmd
+
+
+def _run(cmd, crate, wall_limit):
+    env = dict(os.environ)
+    env['CARGO_NET_OFFLINE'] = 'true'
+    t0 = time.time()
+    try:
+        pr = subprocess.run(cmd, cwd=os.path.join(REPO, crate), capture_output=True, text=True, env=env, timeout=wall_limit)
+        out = pr.stdout + '\n' + pr.stderr
+        rc = pr.returncode
+    except subprocess.TimeoutExpired as e:
+        out = ((e.stdout or b'').decode() if isinstance(e.stdout, bytes) else (e.stdout or '')) + '\nWALL-CLOCK LIMIT'
+        rc = 124
+    return rc, out, time.time() - t0
+
+
+def decode_playback(out, types):
+    """Concrete playback prints one vec![..] of little-endian bytes per kani::any() primitive."""
+    vecs = re.findall(r'vec!\[([0-9,\s]*)\]', out)
+    flat = []
+    for v in vecs:
+        flat.extend(int(x) for x in v.replace(' ', '').split(',') if x != '')
+    args = []
+    pos = 0
+    try:
+        for t in types:
+            m = re.match(r'\[u8;(\d+)\]', t)
+            if m:
+                n = int(m.group(1))
+                args.extend(flat[pos:pos + n])
+                pos += n
+            else:
+                n = SIZES[t]
+                val = int.from_bytes(bytes(flat[pos:pos + n]), 'little')
+                args.append(val)
+                pos += n
+    except Exception:
+        return None
+    if pos > len(flat) or not flat:
+        return None
+    return args
+
+
+def build_replay():
+    d = os.path.join(VERIF, 'replay')
+    env = dict(os.environ)
+    env['CARGO_NET_OFFLINE'] = 'true'
+    env['RUSTFLAGS'] = (env.get('RUSTFLAGS', '') + ' --cfg ldk_verif').strip()
+    pr = subprocess.run(['cargo', 'build', '--offline', '--release', '--target-dir', os.path.join(BUILD, 'replay')], cwd=d, capture_output=True, text=True, env=env)
+    binp = os.path.join(BUILD, 'replay', 'release', 'verif-replay')
+    if pr.returncode != 0 or not os.path.exists(binp):
+        return None, pr.stderr[-2000:]
+    return binp, ''
+
+
+def native_replay(module, contract, args):
+    binp, err = build_replay()
+    if not binp:
+        return {'built': False, 'error': err}
+    pr = subprocess.run([binp, module, contract] + [str(a) for a in args], capture_output=True, text=True)
+    return {'built': True, 'cmd': ' '.join([binp, module, contract] + [str(a) for a in args]), 'stdout': pr.stdout.strip(), 'rc': pr.returncode}
 
 
 def run_groups(prop, groups, tier):
-    return {'harnesses': [], 'violations': [], 'undecided': [], 'trusted': [], 'assumptions': [], 'cmds': []}
+    res = {'harnesses': [], 'violations': [], 'undecided': [], 'trusted': ['CBMC 6.11 / kissat via Kani 0.68 and its rustc front end', 'hooks/*.rs contract functions (the postcondition checks themselves)'],
+           'assumptions': ['Kani checks partial correctness (no termination proof); loops are unwound up to the fixed array sizes with unwinding assertions on'], 'cmds': []}
+    for g in groups:
+        hs = g['harnesses']
+        by_id = {h['id']: h for h in hs}
+        cmd = _kani_cmd(g['crate'], [h['id'] for h in hs], g['timeout'])
+        res['cmds'].append('cd %s && CARGO_NET_OFFLINE=true %s' % (os.path.join(REPO, g['crate']), ' '.join(cmd)))
+        rc, out, wall = _run(cmd, g['crate'], g['timeout'] * 3 + 600)
+        m = re.search(r'Complete - (\d+) successfully verified harnesses, (\d+) failures, (\d+) total', out)
+        if not m:
+            res['undecided'].append('kani group %s produced no summary (rc=%d): %s' % (g['name'], rc, out[-1500:]))
+            continue
+        ok_n, fail_n, total_n = int(m.group(1)), int(m.group(2)), int(m.group(3))
+        if total_n != len(hs):
+            res['undecided'].append('kani group %s: expected %d harnesses, kani ran %d (a harness filter no longer matches)' % (g['name'], len(hs), total_n))
+        failed_names = re.findall(r'Verification failed for - (\S+)', out)
+        checks = [(int(a), int(b)) for (a, b) in re.findall(r'\*\* (\d+) of (\d+) failed', out)]
+        covers = re.findall(r'\*\* (\d+) of (\d+) cover properties satisfied', out)
+        unsat_cover = [c for c in covers if c[0] != c[1]]
+        if unsat_cover:
+            res['undecided'].append('kani group %s: a cover property (non-vacuity) was not satisfied' % g['name'])
+        total_checks = sum(b for (_, b) in checks)
+        failed_ids = set()
+        for fn in failed_names:
+            for hid in by_id:
+                if fn.endswith(hid) or hid.endswith(fn):
+                    failed_ids.add(hid)
+        per = (total_checks // max(1, len(checks))) if checks else 0
+        for h in hs:
+            ent = {'name': h['short'], 'functions': h['functions'], 'clause': h['clause'], 'bounded': bool(h['bounded']), 'bound': h['bounded'],
+                   'status': 'failed' if h['id'] in failed_ids else 'ok', 'checks': per, 'failed': 0, 'wall_s': round(wall, 1)}
+            res['harnesses'].append(ent)
+        # every failed harness is re-run alone, with concrete playback, to tell a time-out from a counterexample
+        for hid in sorted(failed_ids):
+            h = by_id[hid]
+            cmd2 = _kani_cmd(g['crate'], [hid], g['timeout'], playback=True) + ['--exact'] if False else _kani_cmd(g['crate'], [hid], g['timeout'], playback=True)
+            rc2, out2, wall2 = _run(cmd2, g['crate'], g['timeout'] + 900)
+            if 'CBMC timed out' in out2 or 'WALL-CLOCK LIMIT' in out2 or 'VERIFICATION:- FAILED' not in out2:
+                res['undecided'].append('kani harness %s: time-out / no verdict when re-run alone (undecided, not a violation)' % h['short'])
+                for e in res['harnesses']:
+                    if e['name'] == h['short']:
+                        e['status'] = 'undecided'
+                continue
+            failed_checks = re.findall(r'Failed Checks: (.*)', out2)
+            args = decode_playback(out2, h['types'])
+            nat = None
+            if args is not None:
+                nat = native_replay(h['module'], h['contract'], args)
+            fail = {'unit': 'kani:' + g['name'], 'function': h['short'], 'message': 'kani: assertion failed: ' + '; '.join(failed_checks)[:300],
+                    'clause': {'kind': 'harness', 'tag': 'P %s %s' % (prop, h['short']), 'text': h['clause']},
+                    'rendered': out2[-3000:], 'where': [{'origin': 'hooks/%s.rs' % h['module'], 'text': h['short'], 'label': None, 'out_line': 0}]}
+            if args is not None:
+                fail['ce'] = {'inputs': {'contract': h['contract'], 'module': h['module'], 'types': h['types'], 'args': args},
+                              'replay': nat, 'cmd': (nat or {}).get('cmd') or './check %s' % prop}
+                if nat and nat.get('built') and 'Violated' not in (nat.get('stdout') or ''):
+                    # the counterexample does not reproduce natively: report, but say so
+                    fail['ce']['note'] = 'native replay did not return Violated'
+            if h['bounded']:
+                fail['message'] += ' [bounded harness: %s]' % h['bounded']
+            res['violations'].append(fail)
+    return res
